@@ -39,6 +39,7 @@ package core
 //@   records attempts = old(attempts) + 1
 //@   records lastAttempted = endpoint
 //@   records lastAttemptErr = err
+//@   ensures recSuccess + recFailure == old(recSuccess) + old(recFailure) + 1 && reqCount == old(reqCount)
 //@   ensures err != nil && (connErr(err) || circuitOpen(err)) ==> ghost(w).started == old(ghost(w).started)
 //@   ensures forall e *domain.Endpoint :: ghost(e).gauge == old(ghost(e).gauge)
 //@   ensures forall e *domain.Endpoint :: !fresh(e) ==> e.Name == old(e.Name)
@@ -79,6 +80,7 @@ package core
 //@   modifies *
 //@   onpanic forall e *domain.Endpoint :: ghost(e).gauge == old(ghost(e).gauge)
 //@   ensures attempts == old(attempts) + 1 && lastAttempted == endpoint && lastAttemptErr == res
+//@   ensures recSuccess + recFailure == old(recSuccess) + old(recFailure) + 1 && reqCount == old(reqCount)
 //@   ensures res != nil && (connErr(res) || circuitOpen(res)) ==> ghost(w).started == old(ghost(w).started)
 //@   ensures forall e *domain.Endpoint :: ghost(e).gauge == old(ghost(e).gauge)
 //@   ensures forall e *domain.Endpoint :: !fresh(e) ==> e.Name == old(e.Name)
@@ -136,6 +138,7 @@ package core
 //@   at call executeProxyAttempt 1 assert !isnil(bodyBytes) || attemptCount == 1 ==> ghost(r.Body).remaining == old(ghost(r.Body).remaining)
 //@   loop 1 invariant 0 <= attemptCount && attemptCount <= maxRetries && maxRetries == len(endpoints)
 //@   loop 1 invariant attempts == old(attempts) + attemptCount
+//@   loop 1 invariant recSuccess + recFailure == old(recSuccess) + old(recFailure) + attemptCount && reqCount == old(reqCount)
 //@   loop 1 invariant len(availableEndpoints) == len(endpoints) - attemptCount
 //@   loop 1 invariant subset(availableEndpoints, endpoints)
 //@   loop 1 invariant allNonNil(availableEndpoints) && (forall k int :: 0 <= k && k < len(availableEndpoints) ==> !fresh(availableEndpoints[k]))
@@ -146,6 +149,7 @@ package core
 //@   loop 1 invariant attemptCount > 0 ==> lastErr != nil && (connErr(lastErr) || circuitOpen(lastErr))
 //@   loop 1 decreases maxRetries - attemptCount
 //@   ensures attempts >= old(attempts) && attempts - old(attempts) <= len(endpoints)
+//@   ensures recSuccess + recFailure - (old(recSuccess) + old(recFailure)) == attempts - old(attempts) && reqCount == old(reqCount)
 //@   ensures err == nil ==> attempts > old(attempts) && lastAttemptErr == nil
 //@   ensures forall e *domain.Endpoint :: ghost(e).gauge == old(ghost(e).gauge)
 //@   at call buildFinalError 1 assert attemptCount == len(endpoints) && attempts == old(attempts) + len(endpoints)
@@ -369,3 +373,11 @@ package core
 //@   trusted
 //@   modifies ghost remaining
 //@   ensures 0 <= res0 && res0 <= len(p)
+
+// ---- C19, engine scope: requests counted by the engine vs. attempts recorded as success / failure
+//@ ghost var reqCount int
+//@ func (b *BaseProxyComponents) IncrementRequests
+//@   property C19
+//@   trusted
+//@   modifies gvar reqCount
+//@   records reqCount = old(reqCount) + 1
